@@ -84,6 +84,12 @@ CLAIMED = {
             'acceptance table of the datetime parser over (year mod 400, month, day) and the negation of parsed magnitudes. That an accepted text '
             'yields the denoted instant is calendar arithmetic and is not decided.',
             'abstract interpretation: interval domain with adaptive partitioning, linear constraints (Fourier-Motzkin), finite quotient tables', '§5 C15'),
+    'C16': ('other',
+            'Bit-exact value round trips belong to std::to_chars/from_chars and are not decided. Decided are the library obligations around them: '
+            'error-code mapping of every from_chars result, checked to_chars results with sufficient buffers per instantiated type, in-bounds '
+            'look-ahead of the integer parser (linear constraints), the bool parser decision table over character classes and lengths with '
+            'in-bounds reads, and the narrowing/widening route for the four character widths.',
+            'abstract interpretation over finite character-class / error-code domains, linear constraints, call-shape rules', '§5 C16'),
     'C17': ('other',
             'Validator plumbing decided structurally per instantiation (fold order over all validators, message forwarding, grouping/append, '
             'cap comparison, final throw iff non-empty map, entry-point protocol) and the built-in validators decided by abstract interpretation '
